@@ -110,21 +110,21 @@ pub fn announce_frame(k: u16, with_path_trace: bool) -> Vec<u8> {
         time_source: f.time_source,
     });
     let mut fr = wire::Frame::new(wire::MsgType::Announce, master_pid(m), k & 0xff, body);
-    let mut flags = wire::flags::UTC_VALID;
+    let mut flags = wire::flag::UTC_VALID;
     if f.leap61 {
-        flags |= wire::flags::LEAP61;
+        flags |= wire::flag::LEAP61;
     }
     if f.leap59 {
-        flags |= wire::flags::LEAP59;
+        flags |= wire::flag::LEAP59;
     }
     if f.ptp_timescale {
-        flags |= wire::flags::PTP_TIMESCALE;
+        flags |= wire::flag::PTP_TIMESCALE;
     }
     if f.time_traceable {
-        flags |= wire::flags::TIME_TRACEABLE;
+        flags |= wire::flag::TIME_TRACEABLE;
     }
     if f.freq_traceable {
-        flags |= wire::flags::FREQ_TRACEABLE;
+        flags |= wire::flag::FREQ_TRACEABLE;
     }
     fr.hdr.flags = flags;
     fr.hdr.log_interval = 0;
@@ -365,9 +365,9 @@ pub fn explain_emitted_announce(fr: &wire::Frame, max_local_j: u16) -> Result<Ex
     let h = &fr.hdr;
     // time properties as carried
     let tp_expl = {
-        let leap = if h.flag(wire::flags::LEAP59) {
+        let leap = if h.flag(wire::flag::LEAP59) {
             LeapIndicator::Leap59
-        } else if h.flag(wire::flags::LEAP61) {
+        } else if h.flag(wire::flag::LEAP61) {
             LeapIndicator::Leap61
         } else {
             LeapIndicator::NoLeap
@@ -378,11 +378,11 @@ pub fn explain_emitted_announce(fr: &wire::Frame, max_local_j: u16) -> Result<Ex
             v => return Err(format!("emitted time_source {v:#x} belongs to no update")),
         };
         let t = TimePropertiesDS {
-            current_utc_offset: h.flag(wire::flags::UTC_VALID).then_some(a.utc_offset),
+            current_utc_offset: h.flag(wire::flag::UTC_VALID).then_some(a.utc_offset),
             leap_indicator: leap,
-            time_traceable: h.flag(wire::flags::TIME_TRACEABLE),
-            frequency_traceable: h.flag(wire::flags::FREQ_TRACEABLE),
-            ptp_timescale: h.flag(wire::flags::PTP_TIMESCALE),
+            time_traceable: h.flag(wire::flag::TIME_TRACEABLE),
+            frequency_traceable: h.flag(wire::flag::FREQ_TRACEABLE),
+            ptp_timescale: h.flag(wire::flag::PTP_TIMESCALE),
             time_source: ts,
         };
         explain_time_properties(&t).map_err(|e| format!("time properties part: {e}"))?
